@@ -170,21 +170,44 @@ DESC.update({
  "C17-r4a": ("one pipeline shared by all triggers of a job type", "two triggers of the same job type with different log handlers"),
  "C17-r4b": ("wrappedSink records the error of every refused call", "size-limited or transiently failing sink: nothing rejected in the end"),
  "C18-r4a": ("join-query input allocated once per join level and aliased by the previous-run lookup", "two changed dependency entities in one page, the later one re-pointed since the previous run"),
- "C18-r4b": ("join predicate ids (and the 'not yet' error) cached on the source object", "incremental run before the join predicate was ever used in the hub (the shared harness world has used every predicate)"),
+ "C18-r4b": ("join predicate ids (and the 'not yet' error) cached on the source object", "incremental run before the join predicate was ever used in the hub"),
  "C19-r4a": ("as C05-r3a (refused batch discards the shared id transaction)", "refused batch next to a writer, same ids stored again"),
  "C19-r4b": ("rename/delete read the meta-entity without the core.Dataset scope", "a copy of the meta-entity in another dataset, then rename"),
  "C20-r4a": ("LoadLastID reads the file StoreLastID writes + first run of a process truncates the backup file", "write, backup, restart, write, backup, restore"),
  "C20-r4b": ("a native-mode hub takes over a foreign location that has no .kv file", "location owned by an rsync-mode hub"),
 })
+DESC.update({
+ "C03-r5a": ("ExecuteTransaction takes its write time before it holds the dataset write locks", "a transaction queued behind a batch on the same entity (caught by C01/C05's S15)"),
+ "C03-r5b": ("query start points resolved through a per-store id cache filled before the existence check", "a start identifier queried before it exists, written, queried again"),
+ "C05-r5a": ("core.Dataset item counter updated after the writer's lock is released", "two writers of new entities into one dataset (the counter is C19's subject)"),
+ "C05-r5b": ("CompleteFullSync waits for the write lock inside the fullsync mutex", "a fullsync completion while a batch is in flight on the dataset (C09's scenarios)"),
+ "C06-r5a": ("outgoing relation query returns nothing when the start entity is deleted NOW", "query pinned to t, start entity deleted after t"),
+ "C06-r5b": ("continuation tokens of POST /query decoded through a generic map: the pinned instant becomes a float64", "a continuation pinned within 128 ns of a commit"),
+ "C08-r5a": ("dataset sink keeps the dataset handle of its first batch", "sink dataset deleted and re-created between two runs of one job object"),
+ "C08-r5b": ("fullsync token fast-forwarded to the source's change watermark", "a source write between the last page and the watermark read"),
+ "C11-r5a": ("parallel transform returns on the first failed chunk", "a failing chunk while another is executing, then a second run request"),
+ "C11-r5b": ("borrowTicket if/else flattened: a fullsync job falls through to an incremental ticket", "fullsync pool exhausted, incremental ticket free"),
+ "C12-r5a": ("change-log clean-up matches removed versions by (entity, txn time) only", "same entity twice in one batch, the first a duplicate of the stored latest"),
+ "C12-r5b": ("flush rewrites a latest pointer whenever it does not name the kept version", "a batch on the entity between compaction's snapshot and the flush"),
+ "C13-r5a": ("context-aware transform shim splits identifiers at the last # OR /", "HttpTransform with SupportContext and an identifier with a / after the #"),
+ "C13-r5b": ("HttpDatasetSource keeps one stream parser (and its property-name cache) for all requests", "a source that binds one prefix to another namespace in a later response"),
+ "C14-r5a": ("DeleteDataset forgets the dataset in memory only after the meta-entity write", "dataset with public namespaces deleted, restart"),
+ "C14-r5b": ("public namespaces set through core.Dataset are persisted one update behind", "meta-entity write with new public namespaces, restart"),
+ "C17-r5a": ("sink-error override applied however the run ended", "log + reRun handlers, one entity rejected, then a kill"),
+ "C17-r5b": ("stored job definition drops maxItems of the log handler", "maxItems > 0, restart, more rejections than maxItems"),
+ "C18-r5a": ("one 'followed' set across all join levels of a dependency", "three joins, one entity reached on two intermediate levels"),
+ "C18-r5b": ("track_queries Hop/IHop return an already registered first hop", "two javascript-declared chains sharing their first hop (track_queries is outside the check's stated assumptions)"),
+})
+
 
 rows = []
 for d in sorted(glob.glob('/verif/seeded/*/meta.json')):
     m = json.load(open(d))
-    k = f"{m['property']}-{m['variant']}"
+    k = os.path.basename(os.path.dirname(d))
     what, needs = DESC.get(k, ("", ""))
     conf = "yes" if m.get('confirmed') else "no (suite fails)"
     first = "caught" if m.get('caught_before_strengthening', m.get('caught_by_quick')) else "MISSED"
-    if ('r2' in k or 'r3' in k or 'r4' in k):
+    if ('r2' in k or 'r3' in k or 'r4' in k or 'r5' in k):
         if 'baseline_verif_commit' not in m:
             first = "?"
         else:
